@@ -132,8 +132,10 @@ Proof.
         as (bd2 & E2 & Hres).
       exists bd2. split; [eapply erun_trans; eauto|]. destruct res; [apply Hres|exact I]. }
   destruct (dk_inited (e_disk e)).
-  - cbn [negb] in H. apply (Hrest bd e); auto. apply erun_refl; assumption.
+  - cbn [negb] in H. unfold armed in H. rewrite Hf in H. cbn [andb] in H.
+    apply (Hrest bd e); auto. apply erun_refl; assumption.
   - rewrite (io_nofault _ _ Hf) in H. cbn [negb] in H.
+    unfold armed in H. rewrite (io_ok_fault _ _ Hf) in H. cbn [andb] in H.
     apply (Hrest bd (io_ok e AInitMeta)); auto.
     + apply erun_meta; [exact I|assumption..].
 Qed.
